@@ -480,6 +480,9 @@ func AuditTips(prefix string, t *chaingen.Tree, start *chaingen.Node, tips []typ
 		if n == cur {
 			continue
 		}
+		if !n.ChainValid() {
+			return prefix + "-invalid-block-adopted", fmt.Sprintf("the tip moved to node %d (corruption %q, hdr_ok=%v body_ok=%v), which is not a valid chain", n.Idx, n.Corrupt, n.HdrOK, n.BodyOK)
+		}
 		ctw, _ := cur.Work()
 		ntw, _ := n.Work()
 		if ntw.Cmp(ctw) < 0 {
